@@ -258,7 +258,13 @@ func (x *Exec) initGhost(st *State) {
 func (e *Engine) script(o *Obligation, dropQuant bool) string {
 	if o.RawSMT != "" {
 		// standalone lemma: prelude + raw SMT text (the text asserts the negation of the lemma)
-		return "(set-option :produce-models true)\n(set-logic ALL)\n" + keyDatatype() + preludeDecls + prelude + decPrelude + preludeAxioms + o.RawSMT
+		ax := ""
+		for _, a := range strings.Split(strings.TrimSpace(preludeAxioms), "\n") {
+			if sym := axiomSymbol(a); sym != "" && strings.Contains(o.RawSMT, "("+sym+" ") {
+				ax += a + "\n"
+			}
+		}
+		return "(set-option :produce-models true)\n(set-logic ALL)\n" + keyDatatype() + preludeDecls + prelude + decPrelude + ax + o.RawSMT
 	}
 	var sb strings.Builder
 	sb.WriteString("(set-option :produce-models true)\n(set-logic ALL)\n")
